@@ -17,6 +17,7 @@
 #include <sys/wait.h>
 #include <unistd.h>
 
+#define DRV_NO_LINE_WATCHDOG 1
 #include "drv_common.h"
 #include "events.h"
 #include "wrap_events.h"
